@@ -49,6 +49,7 @@ def reset():
   """Forget all atoms (call between independent verification runs)."""
   _ATOM_TABLE.clear()
   del ATOMS[:]
+  POISON.clear()
   _fresh_counter[0] = 0
 
 
@@ -231,7 +232,9 @@ class P(object):
       return NotImplemented
     if o.is_const:
       if o.cval == 0:
-        raise ZeroDivisionError('symbolic division by the constant 0')
+        # x / 0: an undefined (poison) value.  It is harmless when a tf.where masks it and
+        # makes the definedness obligation of any output it reaches fail.
+        return poison('div-by-zero')
       return self.scale(1 / o.cval)
     if not self.t:
       # 0 / q: the quotient is 0 wherever it is defined; q != 0 is a safety
@@ -463,6 +466,16 @@ def inv(q):
   if len(q.t) == 1 and len(m) == 1 and m[0][1] == 1 and ATOMS[m[0][0]].kind == 'inv':
     return ATOMS[m[0][0]].args[0]
   return P.of_atom(_mk_atom('inv', (q,)))
+
+
+POISON = set()
+
+
+def poison(why):
+  p = P.var(fresh_name('undef:' + why))
+  (m, _), = p.t.items()
+  POISON.add(m[0][0])
+  return p
 
 
 def ite(c, a, b):
